@@ -33,8 +33,9 @@ def register_p2(reg, prop):
                 "implies(ncalls('keep') == 0, ncalls('store:block') == 0)"]}},
         ensures=[
             "L0_left_early == 0",
-            # an emptied PacketAck is reported (the caller then does not send it); otherwise the message keeps exactly the kept blocks
-            "iff(result, ncalls('store:message') == 1)",
-            "implies(result, called_with('store:message', lambda key, value: key == 'Packets' and value == new_blocks))"],
+            # whatever happens to the message afterwards (it is still sent if it carries appended acks), its body holds exactly the kept
+            # blocks - never an acknowledgement for a proxy-injected packet; an emptied body is reported to the caller
+            "ncalls('store:message') == 1 and called_with('store:message', lambda key, value: key == 'Packets' and value == new_blocks)",
+            "iff(result, truthy(new_blocks))"],
         frame=[]))
     alias_loops_by_order(reg.fns[f"{MOD}:ProxiedCircuit._rewrite_packet_ack@blocks"])
